@@ -81,6 +81,43 @@ def val_sibling(ctx):
                 errs.append('the dot checked (%s) is not the dot of the op' % fmt(d, 3))
             if not any(st == it.calls[bb].term for st in subterms(it.ret)):
                 errs.append('the verdict of the continuity check is dropped')
+        # .. on every path: whenever the continuity check says Err, the function returns an Err (whatever else it looks at)
+        if not errs:
+            vterms = set(drop_lv(it.calls[bb].term) for bb in good)
+
+            def verdict_core(t):
+                """t is the verdict itself, possibly on its way through `?` / map_err / and_then / map (all of which hand an Err on)."""
+                t = drop_lv(t)
+                for _ in range(6):
+                    if t in vterms:
+                        return True
+                    if t[0] == 'call' and call_name(t) in ('branch', 'map_err', 'and_then', 'map', 'into', 'from', 'or_else_ok') and t[2]:
+                        t = drop_lv(t[2][0])
+                        continue
+                    if t[0] == 'field' and t[2] in ('Break.0', 'Err.0'):
+                        t = drop_lv(t[1])
+                        continue
+                    return False
+                return False
+
+            def verr_atom(t):
+                if t[0] == 'discr' and verdict_core(t[1]):
+                    return ('map', 'verr', {True: 1, False: 0})      # Err / Break are variant 1 of Result / ControlFlow
+                if is_call(t, ('is_err', 'is_ok')) and t[2] and verdict_core(t[2][0]):
+                    return 'verr' if call_name(t) == 'is_err' else ('not', 'verr')
+                return discr_atom_of_param(2)(t)
+            for v in vs:
+                rc = Reach(facts, vb, Evaluator(facts, bool_atom=verr_atom, assumption={'variant': vn.index(v), 'verr': True}))
+                kinds = set()
+                for rb in [b for b in rc.return_blocks() if b in rc.reachable]:
+                    for t_ in rc.reaching_terms(0, rb):
+                        for a_ in phi_alts(drop_lv(t_)):
+                            if is_variant(a_, 'result::Result', 'Err') or is_call(a_, 'from_residual') or verdict_core(a_):
+                                kinds.add('Err')
+                            else:
+                                kinds.add(fmt(a_, 3))
+                if kinds != {'Err'}:
+                    errs.append('a path of the %s arm returns %s although the continuity check failed' % (v, sorted(kinds - {'Err'})))
         ctx.check(not errs, inst, vb, 'continuity checked against the gate clock on every path of the dot-carrying arm', errs[0] if errs else '',
                   line=block_line(it, good[0]))
 
